@@ -86,13 +86,57 @@ class MiniZk(object):
         self.child_watches = {}
         self.handler = _Handler()
         self.sets = 0
+        self.listeners = []
 
     # -- kazoo client surface ------------------------------------------------
-    def add_listener(self, _listener):
-        pass
+    def add_listener(self, listener):
+        # KazooClient.state_listeners is a set
+        if listener not in self.listeners:
+            self.listeners.append(listener)
 
-    def remove_listener(self, _listener):
-        pass
+    def remove_listener(self, listener):
+        if listener in self.listeners:
+            self.listeners.remove(listener)
+
+    def _state_change(self, state):
+        """KazooClient._make_state_change."""
+        for listener in list(self.listeners):
+            if listener(state) is True:
+                self.remove_listener(listener)
+
+    def _reset_watchers(self):
+        """KazooClient._reset_watchers: forget every client-side watcher and
+        tell each one (event type NONE) that it is gone."""
+        from kazoo.protocol import states
+        watchers_ = []
+        for table in (self.child_watches, self.data_watches):
+            for path in sorted(table):
+                watchers_.extend(table[path])
+            table.clear()
+        event = states.WatchedEvent(type=states.EventType.NONE,
+                                    state='CONNECTING', path=None)
+        return [lambda w=watcher: w(event) for watcher in watchers_]
+
+    def reconnect(self, lost, late):
+        """The connection drops (SUSPENDED, or LOST = session expired) and
+        comes back; no node changes.  As in KazooClient._session_callback the
+        listeners hear the bad state, all watchers are reset and notified with
+        a NONE event, then the listeners hear CONNECTED.  A watcher that reacts
+        to NONE by reading (ExistingDataWatch) blocks in its retry until the
+        connection is back: `late` says whether that read completes before or
+        after the CONNECTED listeners ran (both orders happen, the callbacks
+        run on a different thread than the listeners)."""
+        from kazoo.protocol import states
+        self._state_change(states.KazooState.LOST if lost
+                           else states.KazooState.SUSPENDED)
+        pending = self._reset_watchers()
+        if not late:
+            for notify in pending:
+                notify()
+        self._state_change(states.KazooState.CONNECTED)
+        if late:
+            for notify in pending:
+                notify()
 
     @staticmethod
     def retry(func, *args, **kwargs):
@@ -137,7 +181,9 @@ class MiniZk(object):
         if path not in self.nodes:
             raise exceptions.NoNodeError(path)
         if watch is not None:
-            self.data_watches.setdefault(path, []).append(watch)
+            registered = self.data_watches.setdefault(path, [])
+            if watch not in registered:      # kazoo keeps a set per path
+                registered.append(watch)
         return self.nodes[path][0], self._stat(path)
 
     def get_children(self, path, watch=None):
@@ -145,7 +191,9 @@ class MiniZk(object):
         if path not in self.nodes:
             raise exceptions.NoNodeError(path)
         if watch is not None:
-            self.child_watches.setdefault(path, []).append(watch)
+            registered = self.child_watches.setdefault(path, [])
+            if watch not in registered:
+                registered.append(watch)
         prefix = path.rstrip('/') + '/'
         return [
             name[len(prefix):] for name in self.nodes
@@ -334,6 +382,15 @@ class Run(object):
                 self.zk.delete('%s/%s' % (SCHED, name))
         elif kind == 'spawn':
             self._spawn(oper[1], oper[2])
+        elif kind == 'reconnect':
+            # the model does nothing: same budgets, suspensions, instances
+            self.zk.reconnect(lost=oper[1] == 'lost', late=bool(oper[2]))
+            self.model.flags.add('reconnected')
+            if any(conf['tokens'] < 2 * conf['count']
+                   for conf in self.model.confs.values()):
+                self.stats.count('reconnect:with-spent-budget')
+            if self.model.susp:
+                self.stats.count('reconnect:while-suspended')
         else:
             raise AssertionError('harness: op %r' % (oper,))
 
@@ -651,6 +708,11 @@ def cases(draw, max_rounds=30):
                 ops.append(['delmon', name])
             if draw(st.integers(0, 6)) == 0:
                 api[name] = draw(st.sampled_from(FAILS))
+        if draw(st.integers(0, 9)) == 0:
+            ops.insert(draw(st.integers(0, len(ops))),
+                       ['reconnect',
+                        draw(st.sampled_from(['suspended', 'lost'])),
+                        draw(st.integers(0, 1))])
         rnd = {'dt': draw(st.sampled_from(DTS)), 'ops': ops}
         if api:
             rnd['api'] = api
